@@ -5,6 +5,7 @@ CONSTANTS
   Thr = 2
   InitBal = 20
   PersistUnderLock = FALSE
+  RefreshReadsUnderLock = FALSE
   Amounts <- JAmounts
   MaxOps = 0
 INVARIANT Report
